@@ -17,6 +17,13 @@ def cells(tier):
     out += make_cells(PID, 'atomic', tier, N=3, thin=plain, extra={'prehist': True}, suffix='after-roReplace')
     # ... and after a series of refused messages (what a non-strict collection merge leaves behind)
     out += make_cells(PID, 'atomic', tier, N=3, thin=plain, extra={'prefail': True}, suffix='after-refused-messages')
+    # messages whose messageID is not a number (or blank) and whose references all resolve: nothing has to be
+    # reported, so nothing may raise half-way (messages of this kind that must be REPORTED are outside the claim:
+    # the report text formats int(messageID), see DESIGN.md section 8)
+    resolvable = lambda op, story_k, tk, sk, nk: story_k in (None, 'existing') and tk in (None, 'existing') and \
+        (sk is None or sk in (['existing'], ['existing', 'existing'])) and (nk is None or nk == ['fresh'])
+    for mid, name in (('n/a', 'text'), ('', 'blank')):
+        out += make_cells(PID, 'atomic', tier, N=3, thin=resolvable, extra={'mid': mid}, suffix='message-id-' + name)
     # the smallest shapes: one story / item, and every story / item of the container named by the message
     def small(n):
         def f(op, story_k, tk, sk, nk):
